@@ -420,7 +420,7 @@ def sched_part(ctx, pid, cov, sets, directed=True, extra=()):
 
 def check_C02():
     ctx = Ctx("C02"); cov = {}
-    broken = proof_part(ctx, "props/C02.v", ["proofs/C02_good.v", "proofs/C02_methods.v", "proofs/C02_lin.v", "proofs/C01_sim.v", "proofs/C01_ops.v", "Lin.v"], cov)
+    broken = proof_part(ctx, "props/C02.v", ["proofs/C02_good.v", "proofs/C02_methods.v", "proofs/C02_lin.v", "proofs/C01_sim.v", "proofs/C01_ops.v", "Lin.v", "proofs/CX_trans.v", "proofs/CX_compose.v", "proofs/CX_product.v", "proofs/CX_mapof.v", "proofs/CX_map.v", "proofs/X_linearizable.v", "proofs/XS_linearizable.v", "XMachine.v", "XMachineS.v"], cov)
     n = N(ctx, 2500, 40000)
     sched_part(ctx, "C02", cov, [("Cache", n, []), ("CacheOf_int", n, []), ("CacheOf_str", n // 2, ["-sched", "pct"]),
                                  ("Cache", n // 2, ["-threads", "4", "-ops", "4", "-sched", "mix"])])
